@@ -14,6 +14,9 @@ def x_obligations(tier):
                     continue
                 o.append(Obl(f"C19-ext[L={L},order={oi},base={bi}]", M, "extrapolate", env={"VF_L": str(L), "VF_OI": str(oi), "VF_BI": str(bi)}, timeout=T, family="C19-ext",
                              bound=f"chain of {L} keys (name order #{oi}), basetype #{bi}; keytype name, explicit intermediate level, second basetype sharing a prefix and a closed placeholder chosen by the solver"))
+    for L, oi, bi in ([(3, 0, 0), (4, 1, 2), (4, 2, 1), (5, 3, 3)] if tier == "quick" else [(L, oi, bi) for L in (3, 4, 5, 6) for oi in range(4) for bi in range(5) if (L + oi + bi) % 2 == 0]):
+        o.append(Obl(f"C19-ext-collide[L={L},order={oi},base={bi}]", M, "extrapolate_collide", env={"VF_L": str(L), "VF_OI": str(oi), "VF_BI": str(bi)}, timeout=T, family="C19-ext",
+                     bound=f"chain of {L} keys; an explicit type named like a generated one (level chosen by the solver) with another template, configured before or after the extrapolated type; optional second basetype"))
     for si in range(6):
         for sj in range(6):
             if si == sj or (tier == "quick" and (si + sj) % 3 != 0):
@@ -27,7 +30,8 @@ def x_obligations(tier):
 
 def z_obligations(tier):
     return [dict(name="C19-live[shipped]", module="tplz3.c01z", func="live_equals_ref", args={"conf": "shipped"}, timeout=120, family="C19-live"),
-            dict(name="C19-live[miniA]", module="tplz3.c01z", func="live_equals_ref", args={"conf": "miniA"}, timeout=120, family="C19-live")]
+            dict(name="C19-live[miniA]", module="tplz3.c01z", func="live_equals_ref", args={"conf": "miniA"}, timeout=120, family="C19-live"),
+            dict(name="C19-live[miniB]", module="tplz3.c01z", func="live_equals_ref", args={"conf": "miniB"}, timeout=120, family="C19-live")]
 
 
 META = {
